@@ -800,8 +800,15 @@ def _glom_match(target, spec, scope):
                 "{0}({1!r}) did not validate (got exception {2!r})", name, target, e)
         raise MatchError(
             "{0}({1!r}) did not validate (non truthy return)", name, target)
-    elif target != spec:
-        raise MatchError("{0!r} does not match {1!r}", target, spec)
+    else:
+        try:
+            differs = bool(target != spec)
+        except Exception as e:
+            # (a comparison that cannot be evaluated, e.g. with a signalling
+            # NaN: no match, like a raising predicate or M comparison)
+            raise MatchError("{0!r} does not match {1!r} (got exception {2!r})", target, spec, e)
+        if differs:
+            raise MatchError("{0!r} does not match {1!r}", target, spec)
     return target
 
 
